@@ -900,3 +900,55 @@ def const_bytes_into(fn, callee_pat):
                         if "p" in rv:
                             stack.append({"c": rv["p"]})
     return out
+
+
+# ------------------------------------------------------------------ `?` residual sites
+
+def residual_sites(fn):
+    """Every `?` in fn: [(branch_bb, source callee names (deep origins of the branched value), err edge (sw,tgt), ok edge)]"""
+    out = []
+    og = fn.origins()
+    for bi, t in fn.calls():
+        if fn.blocks[bi]["cl"]:
+            continue
+        d = t["fn"].get("d", "") if "d" in t["fn"] else ""
+        if not d.endswith("Try::branch"):
+            continue
+        srcs = set()
+        for a in og.of_operand(t["args"][0], deep=True):
+            if a.kind == "call":
+                srcs.add(a.key[0].rsplit("::", 1)[-1])
+        re_ = result_edges_of_branch(fn, bi)
+        out.append((bi, srcs, re_.get("err"), re_.get("ok")))
+    return out
+
+
+def result_edges_of_branch(fn, bb):
+    """Edges of the ControlFlow switch that follows a Try::branch call at bb."""
+    t = fn.blocks[bb]["t"]
+    dest = t["dest"][0]
+    disc = {}
+    for bi, b in enumerate(fn.blocks):
+        for st in b["st"]:
+            if st[0] == "a" and not st[1][1] and st[2]["r"] == "disc" and st[2]["p"][0] == dest and not st[2]["p"][1]:
+                disc[st[1][0]] = bi
+    for bi, b in enumerate(fn.blocks):
+        tt = b["t"]
+        if tt["t"] == "sw":
+            p = op_place(tt["o"])
+            if p is not None and not p[1] and p[0] in disc:
+                vals = {v: tgt for v, tgt in tt["v"]}
+                return {"ok": (bi, vals.get("0", tt["ow"])), "err": (bi, vals.get("1", tt["ow"]))}
+    return {}
+
+
+def diverging_calls(fn, pat):
+    """Blocks whose call terminator matches pat and never returns (tgt None), e.g. resume_unwind / panic_any."""
+    r = rx(pat)
+    out = []
+    for bi, t in fn.calls():
+        c = fn.callee_of(t) or ""
+        d = t["fn"].get("d", "") if "d" in t["fn"] else ""
+        if (r.search(c) or r.search(d)) and t.get("tgt") is None and not fn.blocks[bi]["cl"]:
+            out.append(bi)
+    return out
